@@ -25,6 +25,8 @@ structure Conf where
   align4 : Int
   fault : Int
   driver : Int
+  /-- index of the configuration this one must agree with (0 = LU reference; the ILU runs have their own) -/
+  ref : Nat := 0
 deriving Repr, Inhabited
 
 structure Run where
@@ -49,7 +51,7 @@ deriving Repr, Inhabited
 
 def getConf (c : Case) (p : String) : Conf :=
   let a := c.int (p ++ "cfg")
-  ⟨a.getD 0 0, a.getD 1 0, a.getD 2 0, a.getD 3 0, a.getD 4 0, a.getD 5 0⟩
+  ⟨a.getD 0 0, a.getD 1 0, a.getD 2 0, a.getD 3 0, a.getD 4 0, a.getD 5 0, (a.getD 6 0).toNat⟩
 
 def getRun (c : Case) (p : String) : Run :=
   let a := c.int (p ++ "res")
@@ -85,7 +87,15 @@ def recount (xsup xlsub xusub : Array Int) (n nsuper : Nat) : Int × Int := Id.r
   return (nl, nu)
 
 /-- Prop for configuration `p` against the reference `k0.` -/
-def propCfg (c : Case) (n : Nat) (ref : Run) (p : String) (cf : Conf) (r : Run) : Option String :=
+def propCfg (c : Case) (n : Nat) (p : String) (cf : Conf) (r : Run) : Option String :=
+  let rp := s!"k{cf.ref}."
+  let ref := getRun c rp
+  if p == rp then
+    (if r.hang ∨ r.aborted ∨ r.info < 0 ∨ r.info > n then
+      some s!"{p} reference configuration (library allocation, fill 30, driver {cf.driver}) did not complete: info={r.info} hang={r.hang} abort={r.aborted}"
+     else none)
+  else
+  if ref.hang ∨ ref.aborted ∨ ref.info < 0 ∨ ref.info > n then none else
   if r.guardBad then some s!"{p} bytes in front of the workspace were overwritten" else
   if r.aborted then some s!"{p} ABORT in the library (mode={cf.mode} fill={cf.fill} lwork={cf.lwork})" else
   if r.hang then none else           -- a hang is C08's finding; counted in the tags
@@ -95,9 +105,9 @@ def propCfg (c : Case) (n : Nat) (ref : Run) (p : String) (cf : Conf) (r : Run) 
   else
   if r.info ≠ ref.info then some s!"{p} info={r.info} but the reference configuration gives {ref.info} (mode={cf.mode} fill={cf.fill} lwork={cf.lwork} align4={cf.align4} driver={cf.driver})" else
   let di := intNames.findSome? fun nm =>
-    if c.int (p ++ nm) != c.int ("k0." ++ nm) then some nm else none
+    if c.int (p ++ nm) != c.int (rp ++ nm) then some nm else none
   let db := bitNames.findSome? fun nm =>
-    if c.raw (p ++ nm) != c.raw ("k0." ++ nm) then some nm else none
+    if c.raw (p ++ nm) != c.raw (rp ++ nm) then some nm else none
   match di.orElse (fun _ => db) with
   | some nm => some s!"{p}{nm} differs from the reference configuration (mode={cf.mode} fill={cf.fill} lwork={cf.lwork} align4={cf.align4} driver={cf.driver})"
   | none =>
@@ -106,7 +116,10 @@ def propCfg (c : Case) (n : Nat) (ref : Run) (p : String) (cf : Conf) (r : Run) 
   let (nl, nu) := recount (c.int (p ++ "xsup")) (c.int (p ++ "xlsub")) (c.int (p ++ "xusub")) n (dims.getD 2 0).toNat
   if (nl, nu) ≠ (r.nnzL, r.nnzU) then some s!"{p} reported nnz(L),nnz(U)={r.nnzL},{r.nnzU} but the returned structure holds {nl},{nu}" else
   if (c.raw (p ++ "mem")).size = 0 then none else
-  if c.raw (p ++ "mem") != c.raw "k0.mem" then some s!"{p} mem_usage differs from the reference configuration" else
+  if c.raw (p ++ "mem") != c.raw (rp ++ "mem") then some s!"{p} mem_usage differs from the reference configuration" else
+  -- ilu_[sdcz]QuerySpace counts sizeof(double) per stored value whatever the precision (reported defect);
+  -- the byte-count clause is applied to incomplete factors only when the case asks for it (ilumem=1)
+  if cf.driver = 2 ∧ c.pNat "ilumem" = 0 then none else
   -- for_lu describes the returned arrays: exact byte count, rounded to float once or twice
   let w := wordsOf c
   let exact := forLuExact w n ((c.int (p ++ "xlusup")).getD n 0) ((c.int (p ++ "xlsub")).getD n 0) ((c.int (p ++ "xusub")).getD n 0)
@@ -135,6 +148,7 @@ def growNeed (fx : Fixes) (w : Words) (fail : Nat → Bool) (t : MemType) (need 
   | some (_, e) => .error s!"model expansion fails (info {e}) where the implementation went on"
 
 def replay (fx : Fixes) (c : Case) (p : String) (cf : Conf) (r : Run) (n : Nat) : Except String Unit := do
+  if cf.driver = 2 then return ()     -- incomplete factorization: Prop only (its growth protocol is not modelled)
   let w := wordsOf c
   let mc := cfgOf c cf
   let fail : Nat → Bool := fun k => cf.fault > 0 && Int.ofNat (k + 1) == cf.fault
@@ -231,7 +245,7 @@ def handle (c : Case) : Res :=
   let ks := List.range ncfg
   let confs := ks.map fun k => (s!"k{k}.", getConf c s!"k{k}.", getRun c s!"k{k}.")
   -- Prop
-  match confs.findSome? (fun (p, cf, r) => propCfg c n ref p cf r) with
+  match confs.findSome? (fun (p, cf, r) => propCfg c n p cf r) with
   | some msg => Res.propFalse msg baseTags
   | none =>
   -- Corr
@@ -245,10 +259,11 @@ def handle (c : Case) : Res :=
         match replay asIs c p cf r n with
         | .ok _ => none
         | .error e3 => some s!"{p} mode={cf.mode} fill={cf.fill} lwork={cf.lwork} align4={cf.align4}: current model: {e1}; repaired model: {e2}; pinned model: {e3}"
+  let ilu := confs.filter fun (_, cf, r) => cf.driver = 2 ∧ ¬ r.hang ∧ r.info ≤ n
   let done := confs.filter fun (_, _, r) => ¬ r.hang ∧ r.info ≤ n
   let nexp := done.filter fun (_, _, r) => r.exp > 0
   let tags := baseTags ++ [s!"done={done.length}", s!"withexp={nexp.length}",
-      s!"short={(confs.filter fun (_, _, r) => r.info > n).length}"] ++
+      s!"short={(confs.filter fun (_, _, r) => r.info > n).length}", s!"ilu={ilu.length}"] ++
       (if confs.any (fun (_, _, r) => r.hang) then ["cfg-hang"] else []) ++
       (if c.pNat "bisect_hangs" > 0 then ["bisect-hang"] else []) ++
       (if ref.info ≠ 0 then ["singular"] else [])
